@@ -280,7 +280,7 @@ Proof. exact C06.RecordProofs.state_inventory_reviewed. Qed.
 Theorem setter_calls_reviewed : setter_calls = map zs4 reviewed_setter_calls.
 Proof. exact C06.RecordProofs.setter_calls_reviewed. Qed.
 Theorem identity_writers_reviewed :
-  identity_writers = map zs3 reviewed_identity_writers /\ forallb (fun w => negb (bytes_eqb (snd w) (zs "?"%string))) attr_writes = true.
+  identity_writers = map zs3 reviewed_identity_writers /\ forallb (fun w => negb (bytes_eqb (snd w) q_mark)) attr_writes = true.
 Proof. exact C06.RecordProofs.identity_writers_reviewed. Qed.
 Theorem preludes_reviewed : servesign_prelude = reviewed_servesign_prelude /\ signcmd_prelude = reviewed_signcmd_prelude.
 Proof. exact C06.RecordProofs.preludes_reviewed. Qed.
@@ -291,7 +291,7 @@ Proof. exact C06.RecordProofs.hash_names_are_the_registered_ones. Qed.
 
 (* ---- non-vacuity *)
 Example server_request_answered :
-  responded (handle [] req_a) = [VStr (zs "pkcs7 blob"%string)] /\ init_succeeds req_a = true /\
+  responded (handle [] req_a) = [VStr blob_a] /\ init_succeeds req_a = true /\
   map (fun p => identity_of (fst p)) (file_records (handle [] req_a)) = [spec_server req_a].
 Proof. exact C06.RecordProofs.server_request_answered. Qed.
 Example staged_is_mono :
@@ -302,7 +302,7 @@ Proof. exact C06.RecordProofs.staged_is_mono. Qed.
 Example memo_names_the_first_certificate :
   let os := handle_all memo_funcs [] [req_a; req_b; req_a] in
   map x509_named os = [[spec_x509 cert_a]; [spec_x509 cert_a]; [spec_x509 cert_a]]
-  /\ map responded os = [[VStr (zs "pkcs7 blob"%string)]; [VStr (zs "pkcs7 blob"%string)]; [VStr (zs "pkcs7 blob"%string)]]
+  /\ map responded os = [[VStr blob_a]; [VStr blob_a]; [VStr blob_a]]
   /\ map x509_named (handle_all rec_funcs [] [req_a; req_b; req_a]) = [[spec_x509 cert_a]; [spec_x509 cert_b]; [spec_x509 cert_a]]
   /\ (forall o, In o os -> o_glob o <> []).
 Proof. exact C06.RecordProofs.memo_names_the_first_certificate. Qed.
